@@ -58,7 +58,7 @@ def native_replay(ws, prog, args, report, timeout=20):
     exe = os.path.join(ws.dir, 'replay_' + re.sub(r'\W+', '_', prog))
     if not os.path.exists(exe):
         cmd = ['g++', '-std=c++20', '-O1', '-g', '-fsanitize=address,undefined', '-fno-sanitize-recover=undefined', '-I' + os.path.join(runner.REPO, 'include'), '-I' + ws.config_include(),
-               '-I' + os.path.join(VERIF, 'spec'), os.path.join(VERIF, 'replay', prog), '-o', exe]
+               '-I' + os.path.join(VERIF, 'spec'), '-I' + os.path.join(VERIF, 'replay'), os.path.join(VERIF, 'replay', prog), '-o', exe]
         p = subprocess.run(cmd, capture_output=True, text=True)
         if p.returncode != 0:
             report['replay_build_error'] = p.stderr[-2000:]; return None
@@ -97,4 +97,4 @@ def num(v):
         try: return int(float(s))
         except Exception: return 0
 
-from checks import c14_c15_codecs   # noqa: E402  (registers units/jobs)
+from checks import c14_c15_codecs, c01_c03_utf   # noqa: E402 (registers units and jobs)
